@@ -23,6 +23,62 @@ INT_RANGE = {'int16': (-2**15, 2**15 - 1), 'int32': (-2**31, 2**31 - 1), 'int64'
              'uint64': (0, 2**64 - 1)}
 
 
+# Scalar kinds a caller realistically has for each scalar option; every kind listed here is accepted by the clean code
+# (probed on the unchanged tree) and must give exactly the result of the plain Python value.
+_INT = ['py', 'int64', 'int32', 'uint8', 'intp', 'arr0']
+KINDS = {
+    'axis': _INT + ['float', 'npfloat'],       # whole floats pass the clean validation (axis - int(axis) == 0)
+    'ngrow': _INT + ['float', 'npfloat'],
+    'grow': _INT,                                # range(1, grow + 1): integers only
+    'width': _INT,                               # scipy medfilt: integers only
+    'const': ['py', 'npbool', 'int01', 'npint01'],
+    'sticky': ['py', 'npbool', 'int01', 'npint01'],
+    'lower': ['py', 'npfloat', 'arr0', 'npint'],  # npint only for whole-number limits
+    'upper': ['py', 'npfloat', 'arr0', 'npint'],
+    'maxdev': ['py', 'npfloat', 'arr0'],
+    'method': ['py', 'npstr'],
+    'boundary': ['py', 'npstr'],
+}
+KIND_COUNTERS = tuple('kind_%s_%s' % (o, k) for o, ks in KINDS.items() for k in ks)
+
+
+def pick_kind(rng, opt, value=None):
+    pool = KINDS[opt][1:]
+    if opt in ('lower', 'upper') and float(value) != int(value):
+        pool = [k for k in pool if k != 'npint']
+    return 'py' if rng.random() < 0.5 else rng.choice(pool)
+
+
+def as_kind(v, kind):
+    """the stored plain value v presented to pydl as the given scalar kind"""
+    if kind == 'py' or v is None:
+        return v
+    if kind in ('int64', 'int32', 'uint8', 'intp'):
+        return getattr(np, kind)(v)
+    if kind == 'arr0':
+        return np.array(v)                       # 0-d array
+    if kind == 'float':
+        return float(v)
+    if kind == 'npfloat':
+        return np.float64(v)
+    if kind == 'npint':
+        return np.int64(int(v))
+    if kind == 'npbool':
+        return np.bool_(v)
+    if kind == 'int01':
+        return int(bool(v))
+    if kind == 'npint01':
+        return np.int64(int(bool(v)))
+    if kind == 'npstr':
+        return np.str_(v)
+    raise ValueError(kind)
+
+
+def same_result(a, b):
+    a, b = np.asarray(a), np.asarray(b)
+    return a.shape == b.shape and bool(np.array_equal(a, b, equal_nan=(a.dtype.kind == 'f' and b.dtype.kind == 'f')))
+
+
 def prod(shape):
     n = 1
     for s in shape:
@@ -113,10 +169,16 @@ class C17(Check):
             'aesthetics: 1-3 methods on one flux/invvar; median: 1-2 widths on one array; skymask: 1-3 ngrow on one invvar/ormask), '
             'every step compared with the reference computed from the ORIGINAL values, and a byte copy of every argument array is '
             'compared after each call.  '
+            'Every scalar option is presented per call in one of the scalar kinds a caller has (Python value; numpy int64/int32/'
+            'uint8/intp scalar; 0-d array; whole float / numpy.float64 for axis and ngrow; bool / numpy.bool_ / 0-1 int for const and '
+            'sticky; float / numpy.float64 / 0-d array / numpy.int64 for lower, upper, maxdev; str / numpy.str_ for method and '
+            'boundary); the kind is stored in the case, counted per option and kind, and the result must equal that of the plain call.  '
             'Non-trivial: reject history with >= 1 point rejected by a limit and >= 1 kept; interpolation with >= 1 masked '
             'sample between two good neighbours; aesthetics with good and bad pixels; median whose output differs from its '
             'input; skymask with >= 1 flagged and >= 1 surviving pixel.  Distinct by hash of the materialised input.')
     ASSUMPTIONS = [
+        'scalar kinds: only kinds the unchanged code accepts are generated (probed): float grow and float width are refused by '
+        'range() / scipy medfilt and are not generated; maxrej/groupdim/groupsize and djs_median(dimension=) stay outside the property',
         'arguments are inputs: no anchored function may write to an argument array (the IDL originals return new arrays; clause '
         '*-input-modified, byte comparison).  One carve-out, because the property text itself says so: aesthetics may change the '
         'caller\'s flux where invvar == 0, so only the pixels with invvar != 0 (and the invvar array) are guarded there; the '
@@ -149,7 +211,8 @@ class C17(Check):
         'inputs_verified_unmodified', 'reject_aliased_mask_reuse_steps', 'reject_outmask_is_inmask_steps',
         'interp_history_steps_on_same_array', 'interp_history_steps_nd', 'aesthetics_history_steps_on_same_array',
         'median_history_steps_on_same_array', 'skymask_history_steps_on_same_array',
-    )
+        'scalar_kind_calls_compared_with_plain_call',
+    ) + KIND_COUNTERS
 
     # ---------------------------------------------------------------- setup
     def setup(self):
@@ -307,6 +370,14 @@ class C17(Check):
         # how the masks travel through the history: fresh copies, the returned array itself handed back as outmask
         # (as iterfit does), or one array serving as inmask and as the first outmask
         case['alias'] = rng.choice(['copy', 'reuse', 'reuse', 'outmask_is_inmask'])
+        # scalar kind of every scalar option, drawn per call of the history (nsteps calls + the repeated one)
+        case['kinds'] = []
+        for _ in range(nsteps + 1):
+            kd = {'grow': pick_kind(rng, 'grow'), 'sticky': pick_kind(rng, 'sticky')}
+            for k in ('lower', 'upper', 'maxdev'):
+                if case[k] is not None:
+                    kd[k] = pick_kind(rng, k, case[k])
+            case['kinds'].append(kd)
         return case
 
     def gen_interp(self, cls, rng):
@@ -347,7 +418,8 @@ class C17(Check):
         for _ in range(rng.choice([0, 1, 1, 2])):
             ax2 = None if nd == 1 else rng.randrange(nd)
             b2, m2 = one_mask(0 if nd == 1 else nd - 1 - ax2)
-            more.append({'mask': m2, 'axis': ax2, 'const': rng.random() < 0.5})
+            more.append({'mask': m2, 'axis': ax2, 'const': rng.random() < 0.5, 'const_kind': pick_kind(rng, 'const'),
+                         'axis_kind': 'py' if ax2 is None else pick_kind(rng, 'axis')})
             allbad &= b2
         if rng.random() < 0.5:
             for k in range(n):
@@ -374,7 +446,8 @@ class C17(Check):
         if nd == 1 and rng.random() < 0.5:
             entry = 'maskinterp1'
         return {'kind': 'interp', 'shape': shape, 'y': y.tolist(), 'mask': mask, 'mask_dtype': mdt, 'x': x,
-                'xorder': xorder, 'axis': axis, 'const': rng.random() < 0.5, 'entry': entry, 'more': more}
+                'xorder': xorder, 'axis': axis, 'const': rng.random() < 0.5, 'entry': entry, 'more': more,
+                'const_kind': pick_kind(rng, 'const'), 'axis_kind': 'py' if axis is None else pick_kind(rng, 'axis')}
 
     def gen_aesthetics(self, rng):
         g = np_rng(rng)
@@ -395,7 +468,8 @@ class C17(Check):
             ivar = ivar.astype(np.float32).astype(np.float64)
         return {'kind': 'aesthetics', 'flux': flux.tolist(), 'invvar': ivar.tolist(), 'dtype': dt,
                 'method': rng.choice(['traditional', 'noconst', 'mean', 'nothing']),
-                'more': [rng.choice(['traditional', 'noconst', 'mean', 'nothing']) for _ in range(rng.choice([0, 1, 2]))]}
+                'more': [rng.choice(['traditional', 'noconst', 'mean', 'nothing']) for _ in range(rng.choice([0, 1, 2]))],
+                'kinds': [pick_kind(rng, 'method') for _ in range(3)]}
 
     def gen_median(self, cls, rng):
         g = np_rng(rng)
@@ -424,7 +498,8 @@ class C17(Check):
             dt = 'int64'
         wmax = 2 * min(shape) - 1                       # widest window one reflection can fill
         more = [rng.choice([v for v in (1, 3, 5, 7, 9, 11, 13) if v <= wmax]) for _ in range(rng.choice([0, 1, 1]))]
-        return {'kind': 'median', 'shape': shape, 'a': a.tolist(), 'width': w, 'dtype': dt, 'more': more}
+        return {'kind': 'median', 'shape': shape, 'a': a.tolist(), 'width': w, 'dtype': dt, 'more': more,
+                'kinds': [{'width': pick_kind(rng, 'width'), 'boundary': pick_kind(rng, 'boundary')} for _ in range(2)]}
 
     def gen_skymask(self, rng):
         g = np_rng(rng)
@@ -479,8 +554,9 @@ class C17(Check):
         return {'kind': 'skymask', 'shape': [nr, npx], 'ivar': ivar.ravel().tolist(), 'mask': mask, 'dtype': dt,
                 'ngrow': ngrow, 'ormask_none': rng.random() < 0.04,
                 'andmask': rng.choice(['none', 'zeros', 'allflags']),
-                'more': [{'ngrow': rng.choice([0, 1, 2, 3, 5]), 'ormask_none': rng.random() < 0.04}
-                         for _ in range(rng.choice([0, 1, 1, 2]))]}
+                'ngrow_kind': pick_kind(rng, 'ngrow'),
+                'more': [{'ngrow': rng.choice([0, 1, 2, 3, 5]), 'ormask_none': rng.random() < 0.04,
+                          'ngrow_kind': pick_kind(rng, 'ngrow')} for _ in range(rng.choice([0, 1, 1, 2]))]}
 
     # ------------------------------------------------------------------ run
     def run(self, case, out):
@@ -541,9 +617,30 @@ class C17(Check):
                     out.count('reject_outmask_is_inmask_steps')
             guard = Guard(out, 'reject').add('data', data).add('model', model).add('inmask', inmask) \
                 .add('outmask', prev_in).add('sigma', sigma).add('invvar', invvar)
-            mask, qdone = self.M.djs_reject(data, model, outmask=prev_in, inmask=inmask, grow=grow, sticky=sticky, **kw)
+            kl = case.get('kinds') or []
+            kd = kl[step] if step < len(kl) else {}
+            kwk = dict(kw)
+            for k in ('lower', 'upper', 'maxdev'):
+                if k in kwk:
+                    kwk[k] = as_kind(kw[k], kd.get(k, 'py'))
+                    out.count('kind_%s_%s' % (k, kd.get(k, 'py')))
+            out.count('kind_grow_' + kd.get('grow', 'py'))
+            out.count('kind_sticky_' + kd.get('sticky', 'py'))
+            mask, qdone = self.M.djs_reject(data, model, outmask=prev_in, inmask=inmask, grow=as_kind(grow, kd.get('grow', 'py')),
+                                            sticky=as_kind(sticky, kd.get('sticky', 'py')), **kwk)
             out.count('reject_calls')
             guard.check(step=step, sticky=sticky, alias=alias)
+            if any(v != 'py' for v in kd.values()):
+                kwp = dict(kw)
+                for k in ('sigma', 'invvar'):
+                    if isinstance(kwp.get(k), np.ndarray):
+                        kwp[k] = (sigma0 if k == 'sigma' else invvar0).copy()
+                pm, pq = self.M.djs_reject(data0.copy(), model0.copy(), outmask=None if prev0 is None else prev0.copy(),
+                                           inmask=None if inmask0 is None else inmask0.copy(), grow=grow, sticky=sticky, **kwp)
+                out.expect(same_result(mask, pm) and bool(qdone) == bool(pq), 'reject-scalar-kind',
+                           'scalar options given as %r give a different (mask, qdone) than the plain Python values' % (kd,),
+                           step=step, kinds=kd)
+                out.count('scalar_kind_calls_compared_with_plain_call')
             mask = np.asarray(mask)
             if not out.expect(mask.shape == shape, 'reject-shape', 'mask shape %r for data shape %r' % (mask.shape, shape)):
                 return
@@ -636,7 +733,8 @@ class C17(Check):
         x0 = None if case['x'] is None else np.array(case['x'], dtype=np.float64).reshape(shape)
         y = y0.copy()
         x = None if x0 is None else x0.copy()
-        steps = [{'mask': case['mask'], 'axis': case['axis'], 'const': case['const']}] + list(case.get('more', []))
+        steps = [{'mask': case['mask'], 'axis': case['axis'], 'const': case['const'], 'axis_kind': case.get('axis_kind', 'py'),
+                  'const_kind': case.get('const_kind', 'py')}] + list(case.get('more', []))
         nontrivial = False
         for step, st in enumerate(steps):
             m0 = np.array(st['mask']).reshape(shape).astype(case['mask_dtype'])
@@ -644,25 +742,40 @@ class C17(Check):
                 out.count('interp_history_steps_on_same_array')
                 if nd > 1:
                     out.count('interp_history_steps_nd')
-            if not self._interp_step(case, out, y, y0, x, x0, m0, st['axis'], st['const'], step):
+            if not self._interp_step(case, out, y, y0, x, x0, m0, st['axis'], st['const'], step,
+                                     st.get('axis_kind', 'py'), st.get('const_kind', 'py')):
                 return
             nontrivial = nontrivial or out.nontrivial
         out.nontrivial = nontrivial
 
-    def _interp_step(self, case, out, y, y_in, x, x_in, m_in, axis, const, step):
+    def _interp_step(self, case, out, y, y_in, x, x_in, m_in, axis, const, step, axis_kind='py', const_kind='py'):
         """one call on the caller's arrays y / x with a fresh mask object; oracle from the pristine y_in / x_in"""
         shape = y_in.shape
         nd = len(shape)
         mask = m_in.copy()
         npaxis = 0 if nd == 1 else nd - 1 - axis
         guard = Guard(out, 'interp').add('yval', y).add('mask', mask).add('xval', x)
-        if case['entry'] == 'maskinterp1':
-            got = self.I.djs_maskinterp1(y, mask, xval=x, const=const)
-        elif nd == 1:
-            got = self.I.djs_maskinterp(y, mask, xval=x, const=const)
-        else:
-            got = self.I.djs_maskinterp(y, mask, xval=x, axis=axis, const=const)
+        ck = as_kind(const, const_kind)
+        out.count('kind_const_' + const_kind)
+
+        def call(yy, mm, xx, ax, cc):
+            if case['entry'] == 'maskinterp1':
+                return self.I.djs_maskinterp1(yy, mm, xval=xx, const=cc)
+            if nd == 1:
+                return self.I.djs_maskinterp(yy, mm, xval=xx, const=cc)
+            return self.I.djs_maskinterp(yy, mm, xval=xx, axis=ax, const=cc)
+        if nd > 1:
             out.count('interp_nd_calls')
+            out.count('kind_axis_' + axis_kind)
+        else:
+            axis_kind = 'py'
+        got = call(y, mask, x, as_kind(axis, axis_kind), ck)
+        if axis_kind != 'py' or const_kind != 'py':
+            plain = call(y_in.copy(), m_in.copy(), None if x_in is None else x_in.copy(), axis, const)
+            out.expect(same_result(got, plain), 'interp-scalar-kind',
+                       'axis given as %s / const as %s gives a different result than the plain Python values' % (axis_kind, const_kind),
+                       step=step, axis=axis)
+            out.count('scalar_kind_calls_compared_with_plain_call')
         guard.check(step=step, axis=axis)
         x = x_in
         got = np.asarray(got)
@@ -744,8 +857,16 @@ class C17(Check):
         for step, method in enumerate([case['method']] + list(case.get('more', []))):
             # the property allows flux to change where invvar == 0, so only the other pixels of the caller's flux are guarded
             guard = Guard(out, 'aesthetics').add('flux', flux, only=good).add('invvar', ivar)
-            got = np.asarray(self.S2.aesthetics(flux, ivar, method=method))
+            kl = case.get('kinds') or []
+            mk = kl[step] if step < len(kl) else 'py'
+            out.count('kind_method_' + mk)
+            got = np.asarray(self.S2.aesthetics(flux, ivar, method=as_kind(method, mk)))
             guard.check(step=step, method=method)
+            if mk != 'py':
+                plain = self.S2.aesthetics(f_in.copy(), iv_in.copy(), method=method)
+                out.expect(same_result(got, plain), 'aesthetics-scalar-kind',
+                           'method given as numpy.str_ gives a different result than the plain str', step=step, method=method)
+                out.count('scalar_kind_calls_compared_with_plain_call')
             if step:
                 out.count('aesthetics_history_steps_on_same_array')
             if not out.expect(got.shape == f_in.shape, 'aesthetics-shape', 'result shape %r' % (got.shape,)):
@@ -768,8 +889,19 @@ class C17(Check):
         nontrivial = False
         for step, w in enumerate([case['width']] + list(case.get('more', []))):
             guard = Guard(out, 'median').add('array', a)
-            got = np.asarray(self.M.djs_median(a, width=w, boundary='reflect'))
+            kl = case.get('kinds') or []
+            kd = kl[step] if step < len(kl) else {}
+            wk, bk = kd.get('width', 'py'), kd.get('boundary', 'py')
+            out.count('kind_width_' + wk)
+            out.count('kind_boundary_' + bk)
+            got = np.asarray(self.M.djs_median(a, width=as_kind(w, wk), boundary=as_kind('reflect', bk)))
             guard.check(step=step, width=w)
+            if wk != 'py' or bk != 'py':
+                plain = self.M.djs_median(a_in.copy(), width=w, boundary='reflect')
+                out.expect(same_result(got, plain), 'median-scalar-kind',
+                           'width given as %s / boundary as %s gives a different result than the plain Python values' % (wk, bk),
+                           step=step, width=w)
+                out.count('scalar_kind_calls_compared_with_plain_call')
             if step:
                 out.count('median_history_steps_on_same_array')
             if not out.expect(got.shape == shape, 'median-shape', 'result shape %r for input %r' % (got.shape, shape)):
@@ -807,21 +939,30 @@ class C17(Check):
         ivar, om = iv_in.copy(), om_in.copy()                                # the caller's arrays, used by every call
         F = (1 << BADSKYCHI) | (1 << REDMONSTER)
         nontrivial = False
-        steps = [{'ngrow': case['ngrow'], 'ormask_none': case['ormask_none']}] + list(case.get('more', []))
+        steps = [{'ngrow': case['ngrow'], 'ormask_none': case['ormask_none'], 'ngrow_kind': case.get('ngrow_kind', 'py')}] \
+            + list(case.get('more', []))
         for step, st in enumerate(steps):
             ngrow = st['ngrow']
+            nk = st.get('ngrow_kind', 'py')
+            ngrow_k = as_kind(ngrow, nk)
+            out.count('kind_ngrow_' + nk)
             guard = Guard(out, 'skymask').add('invvar', ivar).add('ormask', om).add('andmask', andmask)
             if step:
                 out.count('skymask_history_steps_on_same_array')
             if st.get('ormask_none'):
-                got = np.asarray(self.S1.skymask(ivar, andmask, None, ngrow=ngrow))
+                got = np.asarray(self.S1.skymask(ivar, andmask, None, ngrow=ngrow_k))
                 guard.check(step=step, ngrow=ngrow)
                 out.expect(got.shape == iv_in.shape and np.array_equal(got, iv_in), 'skymask-none',
                            'ormask=None must leave the inverse variance unchanged', step=step)
                 out.count('skymask_ormask_none')
                 continue
-            got = np.asarray(self.S1.skymask(ivar, andmask, om, ngrow=ngrow))
+            got = np.asarray(self.S1.skymask(ivar, andmask, om, ngrow=ngrow_k))
             guard.check(step=step, ngrow=ngrow, dtype=dt)
+            if nk != 'py':
+                plain = self.S1.skymask(iv_in.copy(), None if andmask is None else andmask.copy(), om_in.copy(), ngrow=ngrow)
+                out.expect(same_result(got, plain), 'skymask-scalar-kind',
+                           'ngrow given as %s gives a different result than the plain Python int' % nk, step=step, ngrow=ngrow)
+                out.count('scalar_kind_calls_compared_with_plain_call')
             if dt in ('int16', 'int32', 'int64'):
                 out.count('skymask_signed_dtype_cases')
             out.count('skymask_dtype_' + dt)
